@@ -7,31 +7,31 @@ namespace Hex
 variable {F : Type} [PyF F] {N : List String}
 
 omit [PyF F] in
-theorem eraseAll_nil {α : Type} (N : List String) : eraseAll N ([] : List (String × α)) = [] := by
+theorem Writes.eraseAll_nil {α : Type} (N : List String) : eraseAll N ([] : List (String × α)) = [] := by
   rw [eraseAll_eq_filter]; rfl
 
 omit [PyF F] in
-theorem strip_reset (c : Candle F) : strip N c.reset = (strip N c).reset := by
-  simp [strip, Candle.reset, eraseAll_nil]
+theorem Writes.strip_reset (c : Candle F) : strip N c.reset = (strip N c).reset := by
+  simp [strip, Candle.reset, Writes.eraseAll_nil]
 
 omit [PyF F] in
-theorem reset_strip (c : Candle F) : (strip N c).reset = c.reset := by
+theorem Writes.reset_strip (c : Candle F) : (strip N c).reset = c.reset := by
   simp [strip, Candle.reset]
 
 omit [PyF F] in
-theorem strip_reset' (c : Candle F) : strip N c.reset = c.reset := by
-  rw [strip_reset, reset_strip]
+theorem Writes.strip_reset' (c : Candle F) : strip N c.reset = c.reset := by
+  rw [Writes.strip_reset, Writes.reset_strip]
 
 omit [PyF F] in
-theorem recoverClean_strip (c : Candle F) : (strip N c).recoverClean = strip N c.recoverClean := by
+theorem Writes.recoverClean_strip (c : Candle F) : (strip N c).recoverClean = strip N c.recoverClean := by
   unfold Candle.recoverClean
   simp only [strip_clean]
   cases c.clean <;> rfl
 
-theorem merge_strip (a b : Candle F) : (strip N a).merge (strip N b) = strip N (a.merge b) := by
+theorem Writes.merge_strip (a b : Candle F) : (strip N a).merge (strip N b) = strip N (a.merge b) := by
   unfold Candle.merge
-  simp only [recoverClean_strip]
-  rw [strip_reset']
+  simp only [Writes.recoverClean_strip]
+  rw [Writes.strip_reset']
   simp [strip, Candle.reset]
 
 /-! ### collapsing -/
@@ -55,7 +55,7 @@ theorem collapseStep_strip (tf : Int) (st : WalkSt F) (c : Candle F) :
         repeat' split
         all_goals first
           | rfl
-          | (simp only [Functor.map, Except.map, List.map_cons, merge_strip]; try rfl)
+          | (simp only [Functor.map, Except.map, List.map_cons, Writes.merge_strip]; try rfl)
 
 theorem collapseLoop_strip (tf : Int) (l : List (Candle F)) :
     ∀ st : WalkSt F, collapseLoop tf (st.strip N) (l.map (strip N)) = WalkSt.strip N <$> collapseLoop tf st l := by
@@ -64,13 +64,13 @@ theorem collapseLoop_strip (tf : Int) (l : List (Candle F)) :
   | cons c rest ih =>
     intro st
     simp only [List.map_cons, collapseLoop]
-    exact comm_bind (collapseStep_strip tf st c) (fun st' => ih st')
+    exact Writes.comm_bind (collapseStep_strip tf st c) (fun st' => ih st')
 
 /-! ### gap filling -/
 
 omit [PyF F] in
 theorem strip_fillCandle (prev : Candle F) (t : Int) : strip N (fillCandle prev t) = fillCandle prev t := by
-  simp [strip, fillCandle, eraseAll_nil]
+  simp [strip, fillCandle, Writes.eraseAll_nil]
 
 omit [PyF F] in
 theorem fillCandle_strip (prev : Candle F) (t : Int) : fillCandle (strip N prev) t = fillCandle prev t := by
@@ -135,7 +135,7 @@ theorem collapseCandles_strip (tf : Option Int) (fill : Bool) (cs : List (Candle
         have := collapseLoop_strip (N := N) tf rest
           { start := roundDown tf t0, end_ := roundDown tf t0 + tf,
             out := [if onTimeframe tf t0 = true then init else { init with ts := some (roundDown tf t0 + tf) }] }
-        refine comm_bind this (fun st => ?_)
+        refine Writes.comm_bind this (fun st => ?_)
         simp only [WalkSt.strip, ← List.map_reverse]
         cases fill
         · rfl
@@ -193,9 +193,9 @@ theorem convertFrom_strip (rest : List (Candle F)) :
     have h2 : (done.map (strip N)).getLast? = done.getLast?.map (strip N) := by
       rw [List.getLast?_map]
     rw [h1, h2]
-    refine comm_bind (haConvertCandle_strip c.saveClean done.getLast?) (fun c2 => ?_)
+    refine Writes.comm_bind (haConvertCandle_strip c.saveClean done.getLast?) (fun c2 => ?_)
     have h3 : ({ (strip N c2).reset with tag := true } : Candle F) = strip N { c2.reset with tag := true } := by
-      simp [strip, Candle.reset, eraseAll_nil]
+      simp [strip, Candle.reset, Writes.eraseAll_nil]
     rw [h3]
     have := ih (done ++ [{ c2.reset with tag := true }])
     simpa only [List.map_append, List.map_cons, List.map_nil] using this
@@ -237,11 +237,11 @@ theorem trimCandles_strip (lifespan : Option Int) (cs : List (Candle F)) :
 theorem tasks_strip (cfg : MgrCfg) (cs : List (Candle F)) :
     tasks cfg (cs.map (strip N)) = List.map (strip N) <$> tasks cfg cs := by
   unfold tasks
-  refine comm_bind (collapseCandles_strip cfg.tf cfg.fill cs) (fun cs1 => ?_)
+  refine Writes.comm_bind (collapseCandles_strip cfg.tf cfg.fill cs) (fun cs1 => ?_)
   rw [List.isEmpty_map]
   dsimp only
   split
-  · exact comm_bind (convertCandles_strip cs1) (fun cs2 => trimCandles_strip cfg.lifespan cs2)
+  · exact Writes.comm_bind (convertCandles_strip cs1) (fun cs2 => trimCandles_strip cfg.lifespan cs2)
   · exact trimCandles_strip cfg.lifespan cs1
 
 theorem Manager.init_strip (cfg : MgrCfg) (cs : List (Candle F)) :
